@@ -203,9 +203,16 @@ def run_history(ctx, rng):
     if c is not None:
         kw["control_features"] = c
     learner = ExactLearner(hclass=gen.pick(rng, ["cells", "thresholds"]))
+    fp, fn = 1.0, 1.0
     if algo == "eg":
+        okw = {}
+        if rng.random() < 0.5:
+            # cost-sensitive objective (ExponentiatedGradient's `objective`), zero cost for one error type included: rows of that
+            # label then carry exactly zero objective weight
+            fp, fn = [(0.0, 1.0), (1.0, 0.0), (0.0, 2.5), (0.3, 1.0), (2.0, 0.5), (1.0, 3.0)][int(rng.integers(0, 6))]
+            okw = {"objective": red.ErrorRate(costs={"fp": fp, "fn": fn})}
         est = red.ExponentiatedGradient(learner, moment, eps=float(gen.pick(rng, [0.05, 0.1, 0.2])), max_iter=int(gen.pick(rng, [3, 6, 10])),
-                                        nu=1e-6, run_linprog_step=bool(rng.random() < 0.5))
+                                        nu=1e-6, run_linprog_step=bool(rng.random() < 0.5), **okw)
     else:
         est = red.GridSearch(learner, moment, grid_size=int(gen.pick(rng, [3, 7, 12, 20])), grid_limit=float(gen.pick(rng, [0.5, 2.0, 5.0])),
                              constraint_weight=float(gen.pick(rng, [0.0, 0.5, 1.0])))
@@ -214,16 +221,16 @@ def run_history(ctx, rng):
     mapping, problems = ML.align_index(mom, kind, ds, ratio, rng)
     ctx.mark([algo, kind, list(bound), ds.n, len(set(ds.g)), None if ds.c is None else len(set(ds.c)), learner.hclass], True,
              sample={"algo": algo, "moment": kind, "bound": list(bound), "y": ds.y, "groups": ds.g, "control": ds.c, "x": ds.X[:, 0].tolist()})
-    wit = {"algo": algo, "moment": kind, "bound": list(bound), "y": ds.y, "groups": ds.g, "control": ds.c}
+    wit = {"algo": algo, "moment": kind, "bound": list(bound), "y": ds.y, "groups": ds.g, "control": ds.c, "objective_costs": {"fp": fp, "fn": fn}}
     if problems:
         ctx.violate("index_does_not_match_definition:" + problems[0][0], detail=problems[0][1], wit=wit)
         return
     lambdas = est.lambda_vecs_
     preds = est.predictors_
-    wobj = RM.error_weights(ds.y)
+    wobj = RM.error_weights(ds.y, fp, fn)
     from vf.refs import saddle as RS
 
-    tab = RS.Table(kind, ds, ratio, eps, ExactLearner.hypotheses(ds.X[:, 0], learner.hclass))
+    tab = RS.Table(kind, ds, ratio, eps, ExactLearner.hypotheses(ds.X[:, 0], learner.hclass), fp, fn)
     cols = list(lambdas.columns)
     ctx.check(len(cols) == len(preds), "lambda_vecs_and_predictors_differ_in_number", lambdas=len(cols), predictors=len(preds), wit=wit)
     for pos, col in enumerate(cols):
@@ -235,6 +242,13 @@ def run_history(ctx, rng):
             ctx.ev("dummy_predictors_seen")
             live = np.abs(w) > 1e-9 * max(1.0, float(np.abs(w).max()))
             ctx.check(len(set(yred[live].tolist())) <= 1, "dummy_predictor_although_relabelled_y_has_two_classes", column=repr(col), wit=wit)
+            # the constant fallback is itself the best response (pointwise optimal when all weights have one sign): same consequence
+            e_h, g_h = tab.of(np.asarray(p.predict(ds.X), float))
+            lv = tab.lam_vec({mapping[e]: float(lam[e]) for e in mom.index})
+            ctx.ev("best_response_consequences_checked")
+            ctx.check(e_h + float(g_h @ lv) <= float((tab.err + tab.G @ lv).min()) + 1e-9, "constant_fallback_does_not_minimise_objective_plus_lambda_gamma",
+                      column=repr(col), constant=float(np.asarray(p.predict(ds.X[:1]), float)[0]), value=e_h + float(g_h @ lv),
+                      minimum_over_class=float((tab.err + tab.G @ lv).min()), w=w.tolist(), wit=wit)
             continue
         if not hasattr(p, "fit_y_"):
             ctx.ev("predictor_without_fit_record")
